@@ -29,6 +29,26 @@ def generate(streams, tier):
     n = world["n"]
     if n >= 2 and r.random() < 0.4:
         world["latents"] = sorted(r.sample(range(n), r.randint(1, max(1, n // 2))))
+    if r.random() < 0.2:
+        # tables as people type them: root distributions rounded down to 3 decimals (accepted by check_model, sum slightly
+        # below one) with an impossible last state
+        rr = streams.s("rounding")
+        for v in range(n):
+            if not world["parents"][v] and world["card"][v] >= 2:
+                col = [row[0] for row in world["tables"][v]]
+                col[-1] = 0.0
+                tot = sum(col)
+                if tot <= 0:
+                    continue
+                col = [math.floor(x / tot * 1000) / 1000.0 for x in col]
+                d = 1.0 - sum(col)
+                if d > 0.0009:
+                    # the samplers accept a deficit of at most 1e-3
+                    col[0] = round(col[0] + (d - 0.0009), 6)
+                if not (0.0 < 1.0 - sum(col) <= 0.00095):
+                    continue
+                world["tables"][v] = [[x] for x in col]
+        world["flags"]["rounded_roots"] = True
     config = W.gen_bn_config(streams, world)
     ref = RefJoint.from_bn(world)
     rw = streams.s("workload")
@@ -235,7 +255,7 @@ def execute(case, ctx):
                         want = 1.0
                         for v in ev:
                             want *= cond_prob(world, v, r_)
-                        if not close(float(w_), want, atol=1e-12, rtol=1e-9):
+                        if not close(float(w_), want, atol=1e-12, rtol=1e-9 if not world.get("flags", {}).get("rounded_roots") else 1e-2):
                             ctx.fail("weights", f"{PROP}:lw_weight", {"row": [r_[u] for u in range(n)], "weight": float(w_), "want": want, "evidence": sorted(ev.items())})
                             break
             elif k == "gibbs_kernel":
